@@ -204,6 +204,74 @@ def c_sgraph(nids, eids, nprops, eprops, it):
     return f"(mksg {c_arr(enc_arr(nids, it))} {c_arr(enc_arr(eids, it))} {ps(nprops)} {ps(eprops)})"
 
 
+def key_info(raw):
+    """what the key-level oracle looks at: for every node document its kind (+ dtype name and shape of arrays), and the root's attribute keys"""
+    fmt, out = raw["fmt"], {"nodes": {}, "root_attrs": None}
+    for comps, (kind, d) in raw["items"]:
+        if kind != "doc" or not isinstance(d, dict):
+            continue
+        path = "/".join(comps[:-1])
+        if fmt == 2 and comps[-1] == ".zgroup":
+            out["nodes"].setdefault(path, ["group"])
+        elif fmt == 2 and comps[-1] == ".zarray":
+            try:
+                dt = np.dtype(d["dtype"])
+                dn = "str" if dt.kind == "U" else ("bytes" if dt.kind == "S" else ("object" if dt.kind == "O" else dt.name))
+            except Exception:
+                dn = str(d.get("dtype"))
+            out["nodes"][path] = ["array", dn, list(d.get("shape", []))]
+        elif fmt == 2 and comps == [".zattrs"]:
+            out["root_attrs"] = sorted(d)
+        elif fmt == 3 and comps[-1] == "zarr.json":
+            if d.get("node_type") == "array":
+                dt = d.get("data_type")
+                out["nodes"][path] = ["array", dt if isinstance(dt, str) else dt.get("name"), list(d.get("shape", []))]
+            else:
+                out["nodes"][path] = ["group"]
+                if comps == ["zarr.json"]:
+                    out["root_attrs"] = sorted(d.get("attributes") or {})
+    return out
+
+
+def key_oracle(c, o):
+    """docs/specification.md read at the KEY level (zarr-specs for what a group / an array / an attribute is): the root group carries an
+    attribute `geff`; nodes/ids is an array of the ids' dtype and shape (N,), edges/ids of shape (E, 2); every property is a group
+    <grp>/props/<name> with an array `values`, an array `missing` when a value is missing, an array `data` when it is variable-length."""
+    ki = o.get("kinfo")
+    if ki is None:
+        return None
+    nodes = ki["nodes"]
+    if nodes.get("") != ["group"]:
+        return "the store's root is not a group"
+    if "geff" not in (ki["root_attrs"] or []):
+        return f"the root group has no attribute 'geff' (attributes: {ki['root_attrs']})"
+    for grp, ids in (("nodes", c["nids"]), ("edges", c["eids"])):
+        if nodes.get(grp) != ["group"]:
+            return f"no group at key {grp}/"
+        a = nodes.get(f"{grp}/ids")
+        if a is None or a[0] != "array":
+            return f"no array at key {grp}/ids"
+        if a[1] != ids["dtype"] or a[2] != list(ids["shape"]):
+            return f"{grp}/ids is {a[1]}{a[2]}, the graph's ids are {ids['dtype']}{list(ids['shape'])}"
+    for grp, ps in (("nodes", c["nprops"]), ("edges", c["eprops"])):
+        for name, p in (ps or {}).items():
+            if "/" in name or name.startswith(".") or name == "zarr.json" or name == "":
+                continue
+            base = f"{grp}/props/{name}"
+            vl = "vlen" in p["values"]
+            if vl and not p["values"]["vlen"]:
+                continue
+            if nodes.get(base) != ["group"]:
+                return f"no group at key {base}/"
+            if (nodes.get(f"{base}/values") or [None])[0] != "array":
+                return f"no array at key {base}/values"
+            if p["missing"] is not None and any(p["missing"]["data"]) and (nodes.get(f"{base}/missing") or [None, None])[:2] != ["array", "bool"]:
+                return f"a value of {name!r} is missing but there is no boolean array at key {base}/missing"
+            if vl and (nodes.get(f"{base}/data") or [None])[0] != "array":
+                return f"variable-length property {name!r} has no array at key {base}/data"
+    return None
+
+
 def run_impl(c):
     from zarr.storage import MemoryStore
 
@@ -231,6 +299,8 @@ def run_impl(c):
     # the RAW KEYS of the same store (documents parsed, chunks decoded by the harness: harness/keystore.py), for the key-level tie
     raw = kst.try_raw_dump(st, it, c["fmt"] if c["kind"] == "forward" else c["variant"]["fmt"])
     obs["keys"] = "undecodable" if raw is None else len(raw["items"])
+    if raw is not None:
+        obs["kinfo"] = key_info(raw)
     try:
         validate_structure(st)
         obs["valid"] = True
@@ -299,6 +369,9 @@ def oracle(c, o):
         if any("vlen" in p["values"] and not p["values"]["vlen"] for ps in (c["nprops"], c["eprops"]) if ps for p in ps.values()):
             return None
         return Failure(c, slim(o), f"write_arrays raised {o['write'][1]}", {"why": "write-raises"})
+    kw = key_oracle(c, o)
+    if kw is not None:
+        return Failure(c, slim(o), f"key level: {kw}", {"why": "key-layout", "kind": c["kind"]})
     if not o["valid"]:
         return Failure(c, slim(o), f"a {'library-written' if c['kind'] == 'forward' else 'spec-conformant, independently written'} store is "
                        f"rejected by structural validation: {o['valid_exc']}", {"why": "rejects-conformant", "kind": c["kind"]})
@@ -310,7 +383,7 @@ def oracle(c, o):
 
 
 def slim(o):
-    return {k: v for k, v in o.items() if k != "coq"}
+    return {k: v for k, v in o.items() if k not in ("coq", "kinfo")}
 
 
 def nontrivial(c, o):
